@@ -207,7 +207,13 @@ structure WalkRes where
   acc : List Access := []    -- accesses, in order
   keys : List Path := []     -- keys of the records delivered to the iterator
   stop : Bool := false       -- the callback returned an error: the walk ends
-  deriving Repr
+  deriving Repr, DecidableEq
+
+/-- Directory entries have proper names (not empty, not `.` / `..`, no separator), at every level. -/
+def Ents.NamesNormal : Ents → Prop
+  | .nil => True
+  | .file n _ rest => Normal n ∧ rest.NamesNormal
+  | .dir n sub rest => Normal n ∧ sub.NamesNormal ∧ rest.NamesNormal
 
 def WalkRes.andThen (a : WalkRes) (b : WalkRes) : WalkRes :=
   if a.stop then a else { acc := a.acc ++ b.acc, keys := a.keys ++ b.keys, stop := b.stop }
@@ -410,5 +416,10 @@ def dhistory (t : DTree) : List DCall → List (Path × Nat)
   | c :: cs =>
     let (t', r) := dcall t c
     (match r with | .ok ds => ds | .error _ => []) ++ dhistory t' cs
+
+/-- The tree after a history of calls. -/
+def treeAfter (t : DTree) : List DCall → DTree
+  | [] => t
+  | c :: cs => treeAfter (dcall t c).1 cs
 
 end PB.Paths
